@@ -34,6 +34,7 @@ PROFILES = {
     'utility-fine': dict(BASE, kinds=0x31, palette=2, fineUtil=1, pGuardCancel=0, pGuardIssue=0, pIssue=20, maxBatch=1, wReset=2, wImmediate=6),
     'subst':     dict(BASE, pGuardCancel=300, pGuardIssue=350, pIssue=0, maxBatch=1, wImmediate=5),      # single requests that guards veto and replace
     'mirror':    dict(BASE, verboseMethods=1, logAnswers=1, structDump=1, pGuardCancel=100, pGuardIssue=80, wReset=2, wExitEnter=2, wQuery=2),
+    'mirror-fine': dict(BASE, verboseMethods=1, logAnswers=1, structDump=1, kinds=0x31, palette=2, fineUtil=1, pGuardCancel=0, pGuardIssue=0, pIssue=20, maxBatch=1, wReset=2, wImmediate=6),
     'mirror-idle': dict(BASE, verboseMethods=1, logAnswers=1, structDump=1, pIssue=2, maxBatch=1, pGuardCancel=0, pGuardIssue=0, wQuery=0, wReact=0, wImmediate=1, wReset=0, wExitEnter=0),
     'mirror-plans': dict(BASE, verboseMethods=1, logAnswers=1, structDump=1, planDump=1, wPlanEdit=3, wExtStatus=2, pSucceed=150, pFail=40, pHeadStatus=50, pGuardCancel=40, pGuardIssue=20, pIssue=15, maxBatch=1),
     'burst':     dict(BASE, wOverlong=30, maxBatch=14, pIssue=300, pGuardIssue=500, pGuardCancel=120, wSaveLoad=10, wPlanEdit=3, wExtStatus=1, pSucceed=150, pFail=30, pPlanInCb=300, planDump=0, wReset=1, wExitEnter=1, wRecreate=10),
@@ -43,6 +44,7 @@ PROFILES = {
     'c15-core':  dict(BASE, kinds=0x4f, pGuardIssue=0, pGuardCancel=80, pIssue=40, maxBatch=3, pendq=0, wReset=1, wExitEnter=1, wQuery=1, pConsume=40, wfEvery=0),
     'c15-utility': dict(BASE, kinds=0x7f, pGuardIssue=0, pGuardCancel=80, pIssue=40, maxBatch=3, pendq=0, wReset=1, wExitEnter=1, wQuery=1, pConsume=40, wfEvery=0),
     'c15-plans': dict(BASE, kinds=0x4f, pGuardIssue=0, pGuardCancel=60, pIssue=20, maxBatch=2, pendq=0, wReset=1, wExitEnter=1, wQuery=1, pConsume=30, wfEvery=0, wPlanEdit=4, wExtStatus=2, pSucceed=180, pFail=40, pPlanInCb=40, pHeadStatus=60),
+    'payload-plans': dict(BASE, planDump=1, wPlanEdit=5, wExtStatus=2, pSucceed=300, pFail=20, pPlanInCb=60, pGuardCancel=30, pGuardIssue=20, pIssue=15, maxBatch=2, pNoPayload=350, kinds=0x7f),
     'payload':   dict(BASE, pGuardCancel=60, pGuardIssue=100, pIssue=80, maxBatch=4, pNoPayload=200),
 }
 PROFILES['memcheck'] = dict(PROFILES['burst'], _flavours=['gcc-vg'])      # valgrind memcheck: uninitialised reads, which ASan/UBSan do not see
@@ -60,9 +62,9 @@ SHAPE_PROPS = {
     'C09': dict(profiles=['history', 'replica', 'single'], title='history'),
     'C11': dict(profiles=['ordinary', 'burst', 'alloc', 'memcheck'], title='memory safety / UB / assertions / allocation', flavours={'quick': ['clang-asan', 'gcc'], 'thorough': ['clang-asan', 'gcc-asan', 'gcc', 'clang-dev', 'gcc-O2']}),
     'C12': dict(profiles=['utility', 'utility-hostile', 'utility-fine'], title='utility / random selection'),
-    'C16': dict(profiles=['mirror', 'mirror-idle', 'mirror-plans'], title='logger / structure report', flavours={'quick': ['gcc', 'clang', 'clang-vlog'], 'thorough': ['gcc', 'clang', 'clang-vlog', 'gcc17', 'clang-dev']}),
+    'C16': dict(profiles=['mirror', 'mirror-idle', 'mirror-plans', 'mirror-fine'], title='logger / structure report', flavours={'quick': ['gcc', 'clang', 'clang-vlog'], 'thorough': ['gcc', 'clang', 'clang-vlog', 'gcc17', 'clang-dev']}),
     'C13': dict(profiles=['single', 'mixed', 'subst'], title='queries'),
-    'C14': dict(profiles=['payload'], title='payloads'),
+    'C14': dict(profiles=['payload', 'payload-plans'], title='payloads'),
 }
 RULES = {
     'C01': 'evaluations = API operations whose quiescent snapshot (and sampled in-callback views) were checked for well-formedness; distinct_nontrivial = distinct (shape, active, resumable) configurations observed',
@@ -202,6 +204,7 @@ def shape_engine(prop, tier, seed, keep=False):
       P = PROFILES[profile]
       for (nm, fl, ex), (sj, binp) in sorted(ok.items()):
         if ex != P.get('_extra', '') or fl not in P.get('_flavours', flavours): continue
+        if P.get('planDump') and sj['cfg'].get('payload') == 'tiny': continue      # one-byte payloads cannot tell tasks apart (ids modulo 256): plans are followed with the wider types only
         if True:
             for si in range(T['seeds']):
                 rseed = (seed * 7919 + si * 104729 + pi * 1299709 + (zlib.crc32(sj['name'].encode()) & 0xffff)) % 2000000011 + 1
